@@ -35,7 +35,7 @@ def plan(tier):
     return {
         "shards": 16,
         "timeout": 900 if tier == "quick" else 4 * 3600,
-        "required_monitors": ["quantity-oracle", "must-raise", "operands-unchanged"],
+        "required_monitors": ["quantity-oracle", "must-raise", "operands-unchanged", "repeat-after-mutation"],
     }
 
 
@@ -205,6 +205,28 @@ def run_case(case, ctx, res):
                 mech = "unit-dropped-for-dtype"
         res.violate(mech, f"{op} ({kind}, {dt1}/{dt2}, {u1!r} vs {u2!r}): {msg}; result unit {r.unit!s} "
                     f"dtype {r.dtype}", sig=sig)
+        return
+    # second pass on the SAME objects: the result of an operator depends on the operands' current numbers only
+    # (tamper with the returned object, change a's numbers in place, repeat)
+    if op in ("add", "sub", "mul", "div") and np.dtype(dt1).kind == "f" and shape1 and case.get("i", 0) % 4 == 0:
+        res.count("repeat-after-mutation")
+        rv = np.asarray(r.values)
+        if rv.shape and rv.dtype.kind == "f":
+            rv[...] = 0.0
+        a.values[...] = a.values * 2
+        A2 = Q(A.v * 2, A.dims)
+        exp2 = {"add": lambda: Q(A2.v + B.v, A.dims), "sub": lambda: Q(A2.v - B.v, A.dims),
+                "mul": lambda: Q(A2.v * B.v, expect.dims), "div": lambda: Q(A2.v / B.v, expect.dims)}[op]()
+        with np.errstate(all="ignore"):
+            out2 = attempt(fn)
+        if not out2.ok:
+            res.violate("raised-unexpectedly", f"{op} repeated after changing a in place {out2.describe()}", sig=sig)
+            return
+        cond2 = (np.abs(A2.v) + np.abs(B.v)) if op in ("add", "sub") else None
+        msg = compare_quantity(out2.value.values, out2.value.unit, exp2, 2 * rt, cond2)
+        if msg:
+            res.violate("result-depends-on-history", f"{op} ({kind}, {u1!r} vs {u2!r}) repeated on the same objects after a's "
+                        f"numbers were doubled in place: {msg}", sig=sig)
 
 
 def _dims_equal(d1, d2):
